@@ -2,6 +2,7 @@
 CONSTANTS
   Interps = {"i1", "i2"}
   UnwindOnFailure = TRUE
+  DetachCallerEnv = TRUE
   Mode = "c10"
   ModSeq <- Mods2
   MaxOut = 0
@@ -18,6 +19,8 @@ INVARIANT TypeOK
 INVARIANT StackEmptyBetweenCalls
 INVARIANT FailIsIdempotent
 INVARIANT FailLeavesNoResidue
+INVARIANT CallerEnvDetached
+INVARIANT SessionsIsolated
 INVARIANT LoadOnce
 INVARIANT ModuleScopeIsBase
 INVARIANT SingleInstance
